@@ -1,7 +1,42 @@
-(* C14 (PARTIAL): consumed length = input length on acceptance; error position inside the
-   input.  The lossless ordered decomposition itself is checked exhaustively (to a length bound)
-   by the reassembly oracle and tied to the model by correspondence. *)
-From Sipsp Require Import Harness URIOffsets.
-Theorem C14_consumed_and_error_position_partial : forall uri u0 e o u, parse_uri uri u0 = Some (e, o, u) ->
+(* C14: URI parsing is a lossless, ordered decomposition.
+   PROVED for the model of ParseURI (all byte strings, through every re-interpretation the parser
+   makes when an '@' appears after ';' '?' or ':'): when a URI is accepted, the reported components
+   tile the input - the scheme is [0,P) with P = 4 (sip: / tel:) or 5 (sips:), then, each optional
+   part only if present, user [':' password] '@', host, ':' port, ';' parameters, '?' headers, each
+   component starting exactly where the previous one (plus its one-byte delimiter, which is the
+   stated character in the input) ends, the last one ending at the end of the input (HdrPart,
+   unfolded below) - so the components are disjoint, ordered, and together with the delimiters
+   cover every byte.  For tel: the same holds before the number is moved from host to user, and the
+   reported host is empty.  Consumed length = input length; error positions lie inside the input. *)
+From Sipsp Require Import Harness URIOffsets URILossless.
+
+Theorem C14_accepted_uri_tiles_the_input : forall uri o u, parse_uri uri puri0 = Some (NoURIErr, o, u) ->
+  exists P u0, (P = 4 \/ P = 5) /\ HdrPart uri P u0 (nnat (length uri)) /\ u = tel_swap u0 /\ u_scheme u0 = mkpf 0 P.
+Proof. exact parse_uri_lossless. Qed.
+
+Theorem C14_sip_uri : forall uri o u, parse_uri uri puri0 = Some (NoURIErr, o, u) -> u_type u <> TELuri ->
+  exists P, (P = 4 \/ P = 5) /\ u_scheme u = mkpf 0 P /\ HdrPart uri P u (nnat (length uri)).
+Proof. exact sip_uri_lossless. Qed.
+
+Theorem C14_tel_uri : forall uri o u, parse_uri uri puri0 = Some (NoURIErr, o, u) -> u_type u = TELuri ->
+  u_host u = pf0 /\
+  exists P u0, (P = 4 \/ P = 5) /\ HdrPart uri P u0 (nnat (length uri)) /\ u_user u = u_host u0 /\
+               u_pass u = u_pass u0 /\ u_port u = u_port u0 /\ u_params u = u_params u0 /\ u_headers u = u_headers u0.
+Proof. exact tel_uri_lossless. Qed.
+
+(* what the tiling says, spelled out *)
+Theorem C14_tiling_unfolded : forall buf P u e,
+  HdrPart buf P u e <->
+  ((u_headers u = pf0 /\ ParamPart buf P u e) \/
+   (exists e0, ParamPart buf P u e0 /\ B buf e0 = c_qm /\ po (u_headers u) = e0 + 1 /\ e = po (u_headers u) + pl (u_headers u))).
+Proof. intros. reflexivity. Qed.
+
+Theorem C14_consumed_and_error_position : forall uri u0 e o u, parse_uri uri u0 = Some (e, o, u) ->
   o <= nnat (length uri) /\ (e = NoURIErr -> o = nnat (length uri)).
 Proof. exact parse_uri_offsets. Qed.
+
+(* "sip:a;b:c@h:5060;p?x" : the ';' and the ':' before the '@' belong to user and password *)
+Example C14_example :
+  parse_uri [115;105;112;58;97;59;98;58;99;64;104;58;53;48;54;48;59;112;63;120] puri0
+  = Some (NoURIErr, 20, mkpuri SIPuri (mkpf 0 4) (mkpf 4 3) (mkpf 8 1) (mkpf 10 1) (mkpf 12 4) (mkpf 17 1) (mkpf 19 1) 5060).
+Proof. vm_compute. reflexivity. Qed.
